@@ -2,8 +2,10 @@
 
 Reads the two constants the GP tree model depends on: the arity table N_ARGS_FUNCTION (as a list in the fixed
 operator order SUM SUB MUL DIV EXP SQRT LOG ABS SIN COS, the ten names node._evaluate dispatches on) and
-TOURNAMENT_SIZE.  Fails closed: anything but a literal dict of exactly these ten names to non-negative int
-literals, or a non-literal TOURNAMENT_SIZE, is a TranslationError."""
+TOURNAMENT_SIZE.  Fails closed: anything but a dict of exactly these ten names to non-negative int literals
+written as a display or one of the constant-foldable spellings of `_Folder` (dict.fromkeys / dict(...) / ** / |
+over literals and single-assignment module-level names), a non-literal TOURNAMENT_SIZE, or any other statement
+that mentions one of the two names, is a TranslationError."""
 import ast
 from translate.common import TranslationError, parse
 
@@ -11,36 +13,172 @@ REL = 'opytimizer/utils/constants.py'
 OPS = ['SUM', 'SUB', 'MUL', 'DIV', 'EXP', 'SQRT', 'LOG', 'ABS', 'SIN', 'COS']
 
 
+def _targets(st):
+    """(name, value) of a simple module-level binding `NAME = value` / `NAME: T = value`, else None."""
+    if isinstance(st, ast.Assign) and len(st.targets) == 1 and isinstance(st.targets[0], ast.Name):
+        return st.targets[0].id, st.value
+    if isinstance(st, ast.AnnAssign) and isinstance(st.target, ast.Name) and st.value is not None and st.simple:
+        return st.target.id, st.value
+    return None
+
+
+class _Folder:
+    """Constant folding of the spellings of a literal `dict` of str -> int, with Python's semantics (a later
+    entry overrides an earlier one).  Accepted: dict displays incl. `**part`, `dict.fromkeys(seq, v)`, `dict()`,
+    `dict(k=v, **part)`, `dict(mapping_or_pairs, ...)`, `dict(zip(keys, values))`, `part | part`, and names bound
+    exactly once at module level (before use) to such a dict / a list or tuple of str literals / an int literal.
+    Anything else is a TranslationError."""
+
+    def __init__(self, env, rebound=()):
+        self.env = env            # name -> value node (single module-level bindings seen so far)
+        self.shadowed = set(env) | set(rebound)     # builtins `dict` / `zip` must not be redefined
+        self.depth = 0
+
+    def err(self, node, msg):
+        raise TranslationError(REL, node, msg)
+
+    def name(self, node):
+        if node.id not in self.env:
+            self.err(node, 'name %s is not a single module-level literal binding' % node.id)
+        self.depth += 1
+        if self.depth > 100:
+            self.err(node, 'name resolution too deep')
+        return self.env[node.id]
+
+    def int_(self, node):
+        if isinstance(node, ast.Name):
+            return self.int_(self.name(node))
+        if isinstance(node, ast.Constant) and type(node.value) is int and node.value >= 0:
+            return node.value
+        self.err(node, 'value is not a non-negative int literal')
+
+    def str_(self, node):
+        if isinstance(node, ast.Constant) and type(node.value) is str:
+            return node.value
+        self.err(node, 'key is not a str literal')
+
+    def strs(self, node):
+        """list / tuple of str literals (sets have no defined order: rejected)"""
+        if isinstance(node, ast.Name):
+            return self.strs(self.name(node))
+        if isinstance(node, (ast.List, ast.Tuple)):
+            return [self.str_(e) for e in node.elts]
+        self.err(node, 'not a list/tuple of str literals')
+
+    def seq(self, node):
+        if isinstance(node, ast.Name):
+            return self.seq(self.name(node))
+        if isinstance(node, (ast.List, ast.Tuple)):
+            return list(node.elts)
+        self.err(node, 'not a list/tuple display')
+
+    def pairs(self, node):
+        """first positional argument of dict(...): a mapping or an iterable of (key, value) pairs"""
+        if isinstance(node, ast.Call) and isinstance(node.func, ast.Name) and node.func.id == 'zip' \
+                and 'zip' not in self.shadowed and len(node.args) == 2 and not node.keywords:
+            ks, vs = self.strs(node.args[0]), [self.int_(v) for v in self.seq(node.args[1])]
+            if len(ks) != len(vs):
+                self.err(node, 'zip of sequences of different lengths')
+            return list(zip(ks, vs))
+        if isinstance(node, (ast.List, ast.Tuple)):
+            out = []
+            for e in node.elts:
+                if not (isinstance(e, (ast.Tuple, ast.List)) and len(e.elts) == 2):
+                    self.err(e, 'not a (key, value) pair')
+                out.append((self.str_(e.elts[0]), self.int_(e.elts[1])))
+            return out
+        return list(self.dict_(node).items())
+
+    def dict_(self, node):
+        out = {}
+        if isinstance(node, ast.Name):
+            return self.dict_(self.name(node))
+        if isinstance(node, ast.Dict):
+            for k, v in zip(node.keys, node.values):
+                if k is None:
+                    out.update(self.dict_(v))
+                else:
+                    out[self.str_(k)] = self.int_(v)
+            return out
+        if isinstance(node, ast.BinOp) and isinstance(node.op, ast.BitOr):
+            out.update(self.dict_(node.left))
+            out.update(self.dict_(node.right))
+            return out
+        if isinstance(node, ast.Call) and 'dict' not in self.shadowed:
+            f = node.func
+            if isinstance(f, ast.Attribute) and f.attr == 'fromkeys' and isinstance(f.value, ast.Name) \
+                    and f.value.id == 'dict':
+                if len(node.args) != 2 or node.keywords:
+                    self.err(node, 'dict.fromkeys needs exactly (keys, value)')
+                v = self.int_(node.args[1])
+                return {k: v for k in self.strs(node.args[0])}
+            if isinstance(f, ast.Name) and f.id == 'dict':
+                if len(node.args) > 1:
+                    self.err(node, 'dict() with more than one positional argument')
+                if node.args:
+                    if isinstance(node.args[0], ast.Starred):
+                        self.err(node, 'starred argument')
+                    out.update(self.pairs(node.args[0]))
+                for kw in node.keywords:
+                    if kw.arg is None:
+                        out.update(self.dict_(kw.value))
+                    else:
+                        out[kw.arg] = self.int_(kw.value)
+                return out
+        self.err(node, 'N_ARGS_FUNCTION is not a foldable literal dict (%s)' % type(node).__name__)
+
+
 def read(repo):
     tree, src = parse(repo, REL)
     n_args = None
     tsize = None
     lines = {}
+    env = {}
+    rebound = set()
+    WATCH = ('N_ARGS_FUNCTION', 'TOURNAMENT_SIZE')
     for st in tree.body:
-        if not isinstance(st, ast.Assign) or len(st.targets) != 1 or not isinstance(st.targets[0], ast.Name):
+        tv = _targets(st)
+        if tv is None or tv[0] not in WATCH:
+            # any other statement that mentions one of the two names could change it: fail closed
+            # (the right-hand side of a simple binding of another name may only read it)
+            scope = st if tv is None else tv[1]
+            for n in ast.walk(scope):
+                if isinstance(n, ast.Name) and n.id in WATCH and (tv is None or not isinstance(n.ctx, ast.Load)):
+                    raise TranslationError(REL, st, '%s is used outside its defining assignment' % n.id)
+            if tv is None:
+                # names (re)bound by anything but a simple assignment are not constants
+                for n in ast.walk(st):
+                    if isinstance(n, ast.Name) and isinstance(n.ctx, (ast.Store, ast.Del)):
+                        rebound.add(n.id)
+                        env.pop(n.id, None)
+                    elif isinstance(n, (ast.FunctionDef, ast.ClassDef, ast.AsyncFunctionDef)):
+                        rebound.add(n.name)
+                        env.pop(n.name, None)
+                    elif isinstance(n, ast.alias):
+                        nm = (n.asname or n.name).split('.')[0]
+                        rebound.add(nm)
+                        env.pop(nm, None)
+            else:
+                name, value = tv
+                if name in env or name in rebound:
+                    rebound.add(name)
+                    env.pop(name, None)
+                else:
+                    env[name] = value
             continue
-        name = st.targets[0].id
+        name, value = tv
         if name == 'N_ARGS_FUNCTION':
             if n_args is not None:
                 raise TranslationError(REL, st, 'N_ARGS_FUNCTION assigned twice')
-            if not isinstance(st.value, ast.Dict):
-                raise TranslationError(REL, st, 'N_ARGS_FUNCTION is not a dict literal')
-            n_args = {}
-            for k, v in zip(st.value.keys, st.value.values):
-                if not (isinstance(k, ast.Constant) and isinstance(k.value, str)):
-                    raise TranslationError(REL, st, 'non-literal key in N_ARGS_FUNCTION')
-                if not (isinstance(v, ast.Constant) and type(v.value) is int and v.value >= 0):
-                    raise TranslationError(REL, v, 'arity of %s is not a non-negative int literal' % k.value)
-                if k.value in n_args:
-                    raise TranslationError(REL, k, 'duplicate key %s' % k.value)
-                n_args[k.value] = v.value
+            n_args = _Folder(env, rebound).dict_(value)
             lines['N_ARGS_FUNCTION'] = st.lineno
-        elif name == 'TOURNAMENT_SIZE':
+        else:
             if tsize is not None:
                 raise TranslationError(REL, st, 'TOURNAMENT_SIZE assigned twice')
-            if not (isinstance(st.value, ast.Constant) and type(st.value.value) is int and st.value.value >= 0):
+            try:
+                tsize = _Folder(env, rebound).int_(value)
+            except TranslationError:
                 raise TranslationError(REL, st, 'TOURNAMENT_SIZE is not a non-negative int literal')
-            tsize = st.value.value
             lines['TOURNAMENT_SIZE'] = st.lineno
     if n_args is None:
         raise TranslationError(REL, None, 'N_ARGS_FUNCTION not found')
